@@ -236,6 +236,31 @@ CHECKS = {
 NOT_YET = "check not built yet in this round (planned in DESIGN.md section 9); not claimed until its machinery exists"
 
 
+# dimensions added by the evasion rounds (DESIGN.md 10.14): appended to each check's note
+EXTRA = {
+    "C01": "Also: 45-70-call simulated histories (12 files, prefix-related and non-ASCII names), 5 000/70 000 files (index over 1 MiB), 700 runs per file, structural-byte contents, the configuration API (Config model), the compression writer (CompWriter model + Apalache inductive invariant).",
+    "C02": "Also: RepairLoop model replayed behaviour by behaviour; repair sweeps over long-history archives; every third repair into a pre-populated output writer; structural-byte contents.",
+    "C03": "Also: reader configurations carrying the fail-safe 'unauthenticated' option (the normal reader must not be affected).",
+    "C04": "Also: the default reader configuration (no setter) and the explicit setter round trip; `mlar repair` with and without --allow-unauthenticated-data on archives damaged in the middle; every chunk of a long-history archive damaged.",
+    "C05": "Also: 5 000/70 000-file archives repaired intact and cut; long-history archives swept at every second cut; liveness of the decompressor loop.",
+    "C06": "Also: all-zero / all-0xFF keys, nonces, messages; unauthenticated decryption in the same splits.",
+    "C07": "Also: `mlar create` with 3 and 40/300 recipients (default layers included); a destination failing once with the writer driven on (64-byte chunks, telling names).",
+    "C08": "Also: sign-boundary and small-negative lengths, subset extraction, a focused slice (damaged compressed block x any mutation x three operations), a truncation x footer slice, per-operation watchdog; every RepairLoop behaviour.",
+    "C09": "Also: over-long and exactly-at-the-limit NON-ASCII names (bytes vs characters).",
+    "C10": "Also: seeded random walks of 150 steps over the exported graph; multi-byte and prefix-related names; `fsopt` configuration; structural-byte contents.",
+    "C11": "Also: seeded random walks of 200 steps; histories on streams of 17..300 (thorough 65 537) chunks and 17..40 (thorough 1 030) compressed blocks; short reads refined, not abandoned.",
+    "C12": "Also: 66 000/140 000 files (ids beyond 2^16) extracted linearly, all and a subset.",
+    "C13": "Also: destinations implementing write_vectored with partial acceptance (schedules splitting a gather write beyond the tag).",
+    "C14": "Also: destinations accepting 1/3/7 bytes per write with interruptions; long histories with a flush after every call.",
+    "C15": "Also: one-block-per-file archives; `mlar`'s peak resident memory for create (file, stdin), list, cat, extract, to-tar, repair, convert at two sizes.",
+    "C16": "Also: output directories that already hold a symbolic link to an outside directory.",
+    "C17": "Also: 1 100 interleaved files through the descriptor pool; create from directories with aliasing links; archives to standard output (create, convert, repair); compression levels 11 and 0 always.",
+    "C18": "Also: tag-class and tiny-container mutations; key bytes that look like text artefacts (CR LF, BOM, dashes) or structures, for private and (searched) public keys.",
+    "C19": "Also: output paths that already hold longer files.",
+    "C20": "Also: a gcc-compiled C client against mla.h + libmla.a; declining file callbacks; 70 and 1 100 files; NULL reader-configuration handle and key.",
+}
+
+
 def main():
     checks = []
     for pid in ALL:
@@ -250,7 +275,7 @@ def main():
             replay_cmd_template="./check replay {path}",
             engine="tla-mbt",
             level_claimed=dict(category=c.get("category", "model_checking"), text=c["text"], design_ref=c["design_ref"]),
-            level_note=c["note"],
+            level_note=c["note"] + " " + EXTRA.get(pid, ""),
             technique=c["technique"],
         ))
     na = [dict(property_id=p, reason=NOT_YET) for p in ALL if p not in CHECKS]
